@@ -121,6 +121,10 @@ def c17_b(ctx: Ctx):
     return out
 
 
+def os_abs(e):
+    return isinstance(e, ast.Call) and (dotted(e.func) or "") in ("os.path.abspath", "os.path.realpath")
+
+
 @rule("C17-c")
 def c17_c(ctx: Ctx):
     """Existing view is analysed exhaustively; changed and dangling links are re-pointed; obsolete removed first."""
@@ -197,6 +201,23 @@ def c17_c(ctx: Ctx):
         out.append(ctx.ok(R, av, srt[0], "dead branches are removed deepest first"))
     elif srt:
         out.append(ctx.inc(R, av, srt[0], "order of dead-branch removal not recognised"))
+    # the link's target is expressed relative to the directory that contains the link: os.path.relpath(<job dir>, dirname(<link>))
+    for c in [x for x in body_nodes(uv) if isinstance(x, ast.Call) and (LV + ":_make_link") in common.targets_of(ctx, uv, x) and len(x.args) >= 2]:
+        srcv = common.inline_at(ctx, uv, c.args[0], c)
+        dstt = canon(c.args[1])
+        dsti = canon(common.inline_at(ctx, uv, c.args[1], c))
+        kk = LV + ":_update_view|link-target-relative-to-link-dir"
+        b = common.pmatch("os.path.relpath(T, S)", srcv)
+        forms = {f"os.path.split({d})[0]".replace(" ", "") for d in (dstt, dsti)} | {f"os.path.dirname({d})".replace(" ", "") for d in (dstt, dsti)}
+        if b is not None and canon(b["S"]).replace(" ", "") in forms:
+            out.append(ctx.ok(R, uv, c, "the link target is os.path.relpath(<job directory>, <directory of the link>)", construct=kk))
+        elif b is not None or "relpath" in canon(srcv) or "pardir" in canon(srcv) or "'..'" in canon(srcv):
+            out.append(ctx.viol(R, uv, c, f"the link target is computed as {canon(srcv)[:70]}, not relative to the directory that holds the link: for path specifications that are not in normal "
+                                "form ('./n/{n}', 'a//{b}', an empty value) the number of '..' steps is wrong and the links dangle", construct=kk))
+        elif os_abs(srcv):
+            out.append(ctx.ok(R, uv, c, "the link target is an absolute path", construct=kk))
+        else:
+            out.append(ctx.inc(R, uv, c, f"link target shape not recognised: {canon(srcv)[:60]}", construct=kk))
     ml = ctx.fn(LV + ":_make_link")
     sl = [c for c in body_nodes(ml) if isinstance(c, ast.Call) and common.ext_name(ctx, ml, c) == "os.symlink"]
     if sl and [canon(a) for a in sl[0].args[:2]] == ["src", "dst"]:
